@@ -4,7 +4,7 @@
 LOG=$1; shift
 SNAP=/tmp/verif-snap-$$
 git -C /verif worktree add -q --detach $SNAP HEAD
-export VERIF_CHECK_DIR=$SNAP VERIF_DRIVER=/verif/driver/target/release/ffz-mir
+export VERIF_CHECK_DIR=$SNAP VERIF_DRIVER=${VERIF_DRIVER:-/verif/driver/target/release/ffz-mir}
 mkdir -p $LOG
 for c in "$@"; do
   for a in gen parse hash dual cmp pos; do
